@@ -17,7 +17,7 @@ namespace Driver.Shaping
 open O4 O4.GoRand O4.ProbDist O4.Shaping
 
 /-- the model follows the tree after the `fix:` commit for defect F2 -/
-def fixed : Bool := false
+def fixed : Bool := true
 
 def commaSep (xs : List String) : String := if xs.isEmpty then "-" else ",".intercalate xs
 
@@ -33,12 +33,19 @@ def parseBool : String → Option Bool
 
 def intToNat (x : Int) : Nat := x.toNat
 
+/-- one `Sample()` from the tape; `none` once the tape is exhausted (the harness hands over
+    exactly the bytes the implementation consumed) -/
+def tapeSample (d : Dist Float) (t : Tape) : Option (Nat × Tape) :=
+  match d.sample floatOps tapeSource t with
+  | none => none
+  | some (v, t') => if t'.short then none else some (intToNat v, t')
+
 /-- the sampler of a connection whose tables are `lenD` / `iatD`, reading the tape -/
 def tapeSampler (lenD : Dist Float) (iatD : Option (Dist Float)) : Sampler Tape where
-  len t := (lenD.sample floatOps tapeSource t).map (fun (v, t') => (intToNat v, t'))
+  len t := tapeSample lenD t
   iat t := match iatD with
     | none => none
-    | some d => (d.sample floatOps tapeSource t).map (fun (v, t') => (intToNat v, t'))
+    | some d => tapeSample d t
 
 def statusStr : Status → String
   | .ok => "ok"
@@ -85,7 +92,8 @@ def step (_ : Unit) : List String → Unit × String
           match iatD with
           | none => ((), "fuel")
           | some iatD =>
-            let o := write (tapeSampler lenD iatD) fixed mode n 1000000 ⟨tape, false⟩
+            -- every loop iteration draws at least one sample (16 tape bytes), so this fuel is never the limit
+            let o := write (tapeSampler lenD iatD) fixed mode n (tape.length / 16 + n + 8) ⟨tape, false⟩
             let samples := o.writes.filterMap (·.sample)
             if o.s.short then ((), "tape-short") else
             ((), s!"{statusStr o.status} {nats (o.writes.map (·.size))} {nats samples} {nats o.frames} {nats o.delays} {tape.length - o.s.data.length}")
